@@ -84,6 +84,16 @@ def main():
     wr("sync/rwmutex.go", s)
     wr("sync/verifsim.go", SYNC_VERIFSIM)
 
+    # ---------------- time: the wall clock of selected goroutines belongs to the simulator ----
+    s = rd("time/time.go")
+    s = sub_once(s, "func Now() Time {\n\tsec, nsec, mono := runtimeNow()\n",
+                 "// VerifNow, when set and answering ok, is the clock of the calling goroutine (Unix\n"
+                 "// nanoseconds). The value carries no monotonic reading, so Since, Until and Sub of such\n"
+                 "// values go through Now again.\nvar VerifNow func() (unixNano int64, ok bool)\n\n"
+                 "func Now() Time {\n\tif h := VerifNow; h != nil {\n\t\tif ns, ok := h(); ok {\n\t\t\treturn unixTime(ns/1e9, int32(ns%1e9))\n\t\t}\n\t}\n\tsec, nsec, mono := runtimeNow()\n",
+                 "time.Now")
+    wr("time/time.go", s)
+
     # ---------------- syscall: fault points at the typed wrappers ----------------
     s = rd("syscall/zsyscall_linux_amd64.go")
     for name in SYSCALL_FUNCS:
@@ -255,7 +265,7 @@ func verifMutexLock(m *Mutex) bool {
 '''
 
 SYSCALL_FUNCS = ["openat", "read", "write", "pread", "pwrite", "Close", "Renameat", "unlinkat",
-                 "Mkdirat", "Ftruncate", "Fsync", "Fdatasync", "Fchmod", "fchmodat", "Fstat",
+                 "Mkdirat", "Ftruncate", "Fsync", "Fdatasync", "Fchmod", "fchmodat", "Fchown", "Fchownat", "Fstat",
                  "fstatat", "Getdents", "utimensat", "linkat", "symlinkat"]
 
 SYSCALL_VERIFSIM = r'''// Code generated by /verif/rtpatch; simulation builds only.
@@ -435,18 +445,44 @@ func fchmodat(dirfd int, path string, mode uint32) (err error) {
 	return verifOrig_fchmodat(dirfd, path, mode)
 }
 
+// VerifFSStat, when set, sees every successful stat result and may rewrite it (the
+// simulated file system can make files belong to somebody else).
+var VerifFSStat func(st *Stat_t)
+
 func Fstat(fd int, stat *Stat_t) (err error) {
 	if d := verifAsk("fstat", fd, "", "", 0, 0); d.Mode == VerifFail {
 		return verifErr(d.Err)
 	}
-	return verifOrig_Fstat(fd, stat)
+	err = verifOrig_Fstat(fd, stat)
+	if h := VerifFSStat; h != nil && err == nil {
+		h(stat)
+	}
+	return err
 }
 
 func fstatat(fd int, path string, stat *Stat_t, flags int) (err error) {
 	if d := verifAsk("fstatat", fd, path, "", 0, flags); d.Mode == VerifFail {
 		return verifErr(d.Err)
 	}
-	return verifOrig_fstatat(fd, path, stat, flags)
+	err = verifOrig_fstatat(fd, path, stat, flags)
+	if h := VerifFSStat; h != nil && err == nil {
+		h(stat)
+	}
+	return err
+}
+
+func Fchown(fd int, uid int, gid int) (err error) {
+	if d := verifAsk("fchown", fd, "", "", uid, gid); d.Mode == VerifFail {
+		return verifErr(d.Err)
+	}
+	return verifOrig_Fchown(fd, uid, gid)
+}
+
+func Fchownat(dirfd int, path string, uid int, gid int, flags int) (err error) {
+	if d := verifAsk("fchownat", dirfd, path, "", uid, gid); d.Mode == VerifFail {
+		return verifErr(d.Err)
+	}
+	return verifOrig_Fchownat(dirfd, path, uid, gid, flags)
 }
 
 func Getdents(fd int, buf []byte) (n int, err error) {
